@@ -62,6 +62,21 @@ pub struct SimFactory {
 }
 
 impl SimFactory {
+	/// To be called from inside a spawn hook when the wrapper is installed by the spawn interceptor
+	/// (`on_intercept`) instead: records the hook call and leaves its mark on the command, nothing else,
+	/// so that a job whose hook has been unset still gets a simulated child.
+	pub fn hook_only(&self, tag: i64, command: &mut TokioCommandWrap, ctx: &JobTaskContext<'_>) {
+		let n = self.next.load(Ordering::SeqCst) + 1;
+		self.rec.rec(
+			Ev::new("hook")
+				.n(n)
+				.x(tag)
+				.a(state_class(ctx.current))
+				.b(ctx.previous.map_or("none".into(), state_class)),
+		);
+		command.command_mut().env("VERIF_TAG", tag.to_string());
+	}
+
 	pub fn new(rec: Recorder, kids: Vec<Kid>) -> Self {
 		Self {
 			rec,
